@@ -294,6 +294,8 @@ fn notify_world_listeners(
                     .send_supervisor_evt(SupervisionEvent::ProcessGroupChanged(change.clone()));
             }
         }
+        #[cfg(ractor_verif)]
+        crate::verif::point("pg.wnotify", 0, 0);
     }
 }
 
@@ -324,6 +326,8 @@ pub fn join_scoped(scope: ScopeName, group: GroupName, actors: Vec<ActorCell>) {
         .into_iter()
         .filter(|actor| actor.get_status() <= ActorStatus::Draining)
         .collect::<Vec<_>>();
+    #[cfg(ractor_verif)]
+    crate::verif::point("pg.join.filter", 0, actors.len() as i64);
     if actors.is_empty() {
         return;
     }
@@ -347,6 +351,12 @@ pub fn join_scoped(scope: ScopeName, group: GroupName, actors: Vec<ActorCell>) {
             } else if relations_guard.is_empty() {
                 stopped_relations.push((actor.get_id(), relations.clone()));
             }
+            #[cfg(ractor_verif)]
+            crate::verif::emit(
+                "pg.join.actor",
+                actor.get_id().pid(),
+                i64::from(accepted.contains(&actor.get_id())),
+            );
         }
 
         let joined = actors
@@ -363,9 +373,13 @@ pub fn join_scoped(scope: ScopeName, group: GroupName, actors: Vec<ActorCell>) {
 
         (joined, group_state.listeners.clone())
     };
+    #[cfg(ractor_verif)]
+    crate::verif::point("pg.join.commit", 0, joined.len() as i64);
 
     for (actor, relations) in stopped_relations {
         remove_empty_actor_relations(monitor, actor, &relations);
+        #[cfg(ractor_verif)]
+        crate::verif::point("pg.join.stale", actor.pid(), 0);
     }
 
     if joined.is_empty() {
@@ -374,6 +388,8 @@ pub fn join_scoped(scope: ScopeName, group: GroupName, actors: Vec<ActorCell>) {
                 entry.remove();
             }
         }
+        #[cfg(ractor_verif)]
+        crate::verif::emit("pg.join.rm", 0, 0);
         return;
     }
 
@@ -382,6 +398,8 @@ pub fn join_scoped(scope: ScopeName, group: GroupName, actors: Vec<ActorCell>) {
             GroupChangeMessage::Join(scope.to_owned(), group.clone(), joined.clone()),
         ));
     }
+    #[cfg(ractor_verif)]
+    crate::verif::point("pg.join.gnotify", 0, listeners.len() as i64);
 
     notify_world_listeners(monitor, &scope, &group, &joined, true);
 }
@@ -427,6 +445,8 @@ pub fn leave_scoped(scope: ScopeName, group: GroupName, actors: Vec<ActorCell>) 
     } else {
         None
     };
+    #[cfg(ractor_verif)]
+    crate::verif::point("pg.leave.region", 0, i64::from(result.is_some()));
 
     let Some(listeners) = result else {
         return;
@@ -437,6 +457,8 @@ pub fn leave_scoped(scope: ScopeName, group: GroupName, actors: Vec<ActorCell>) 
             GroupChangeMessage::Leave(scope.to_owned(), group.clone(), actors.clone()),
         ));
     }
+    #[cfg(ractor_verif)]
+    crate::verif::point("pg.leave.gnotify", 0, listeners.len() as i64);
 
     notify_world_listeners(monitor, &scope, &group, &actors, false);
 }
@@ -446,14 +468,20 @@ pub fn leave_scoped(scope: ScopeName, group: GroupName, actors: Vec<ActorCell>) 
 pub(crate) fn leave_all(actor: ActorId) {
     let monitor = get_monitor();
     let Some(relations) = get_actor_relations(monitor, actor) else {
+        #[cfg(ractor_verif)]
+        crate::verif::emit("pg.xleave.take", actor.pid(), -1);
         return;
     };
     let mut relations_guard = lock_relations(&relations);
     let memberships = std::mem::take(&mut relations_guard.memberships);
     drop(relations_guard);
+    #[cfg(ractor_verif)]
+    crate::verif::point("pg.xleave.take", actor.pid(), memberships.len() as i64);
     let mut removal_events = Vec::with_capacity(memberships.len());
 
     for key in memberships {
+        #[cfg(ractor_verif)]
+        let (vkey, vlen) = (key.clone(), removal_events.len());
         if let Occupied(mut entry) = monitor.map.entry(key.clone()) {
             let group_state = entry.get_mut();
             if let Some(actor_cell) = group_state.members.remove(&actor) {
@@ -467,9 +495,18 @@ pub(crate) fn leave_all(actor: ActorId) {
                 removal_events.push((key, actor_cell, listeners));
             }
         }
+        #[cfg(ractor_verif)]
+        crate::verif::point_kv(
+            "pg.xleave.g",
+            actor.pid(),
+            (removal_events.len() - vlen) as i64,
+            verif_key(&vkey),
+        );
     }
 
     remove_empty_actor_relations(monitor, actor, &relations);
+    #[cfg(ractor_verif)]
+    crate::verif::point("pg.xleave.relrm", actor.pid(), 0);
 
     for (scope_and_group, cell, per_group_listeners) in &removal_events {
         for listener in per_group_listeners {
@@ -481,6 +518,13 @@ pub(crate) fn leave_all(actor: ActorId) {
                 ),
             ));
         }
+        #[cfg(ractor_verif)]
+        crate::verif::point_kv(
+            "pg.xleave.gnotify",
+            actor.pid(),
+            per_group_listeners.len() as i64,
+            verif_key(scope_and_group),
+        );
 
         notify_world_listeners(
             monitor,
@@ -630,6 +674,8 @@ pub fn monitor(group: GroupName, actor: ActorCell) {
     let monitor = get_monitor();
     let actor_id = actor.get_id();
     let relations = get_or_create_actor_relations(monitor, actor_id);
+    #[cfg(ractor_verif)]
+    crate::verif::point("pg.mon.rel", actor_id.pid(), 0);
     let mut entry = monitor.map.entry(key.clone()).or_default();
     let mut relations_guard = lock_relations(&relations);
 
@@ -646,13 +692,23 @@ pub fn monitor(group: GroupName, actor: ActorCell) {
 
     drop(relations_guard);
     drop(entry);
+    #[cfg(ractor_verif)]
+    crate::verif::point("pg.mon.region", actor_id.pid(), 0);
     if actor.get_status() >= ActorStatus::Stopping {
         if let Occupied(entry) = monitor.map.entry(key) {
             if entry.get().members.is_empty() && entry.get().listeners.is_empty() {
                 entry.remove();
             }
         }
+        #[cfg(ractor_verif)]
+        crate::verif::point("pg.mon.post", actor_id.pid(), 1);
         remove_empty_actor_relations(monitor, actor_id, &relations);
+        #[cfg(ractor_verif)]
+        crate::verif::emit("pg.mon.relrm", actor_id.pid(), 0);
+    }
+    #[cfg(ractor_verif)]
+    if actor.get_status() < ActorStatus::Stopping {
+        crate::verif::emit("pg.mon.post", actor_id.pid(), 0);
     }
 }
 
@@ -668,6 +724,8 @@ pub fn monitor_scope(scope: ScopeName, actor: ActorCell) {
     let monitor = get_monitor();
     let actor_id = actor.get_id();
     let relations = get_or_create_actor_relations(monitor, actor_id);
+    #[cfg(ractor_verif)]
+    crate::verif::point("pg.smon.rel", actor_id.pid(), 0);
     let mut entry = monitor.world_listeners.entry(key.clone()).or_default();
     let mut relations_guard = lock_relations(&relations);
 
@@ -681,13 +739,23 @@ pub fn monitor_scope(scope: ScopeName, actor: ActorCell) {
 
     drop(relations_guard);
     drop(entry);
+    #[cfg(ractor_verif)]
+    crate::verif::point("pg.smon.region", actor_id.pid(), 0);
     if actor.get_status() >= ActorStatus::Stopping {
         if let Occupied(entry) = monitor.world_listeners.entry(key) {
             if entry.get().is_empty() {
                 entry.remove();
             }
         }
+        #[cfg(ractor_verif)]
+        crate::verif::point("pg.smon.post", actor_id.pid(), 1);
         remove_empty_actor_relations(monitor, actor_id, &relations);
+        #[cfg(ractor_verif)]
+        crate::verif::emit("pg.smon.relrm", actor_id.pid(), 0);
+    }
+    #[cfg(ractor_verif)]
+    if actor.get_status() < ActorStatus::Stopping {
+        crate::verif::emit("pg.smon.post", actor_id.pid(), 0);
     }
 }
 
@@ -703,6 +771,8 @@ pub fn demonitor(group_name: GroupName, actor: ActorId) {
     };
     let monitor = get_monitor();
     let relations = get_actor_relations(monitor, actor);
+    #[cfg(ractor_verif)]
+    crate::verif::point("pg.demon.rel", actor.pid(), i64::from(relations.is_some()));
 
     if let Occupied(mut entry) = monitor.map.entry(key.clone()) {
         let mut relations_guard = relations.as_ref().map(lock_relations);
@@ -719,6 +789,8 @@ pub fn demonitor(group_name: GroupName, actor: ActorId) {
     } else if let Some(relations) = relations {
         lock_relations(&relations).group_monitors.remove(&key);
     }
+    #[cfg(ractor_verif)]
+    crate::verif::emit("pg.demon.region", actor.pid(), 0);
 }
 
 /// Unsubscribes the provided [crate::Actor] from the scope for updates
@@ -732,6 +804,8 @@ pub fn demonitor_scope(scope: ScopeName, actor: ActorId) {
     };
     let monitor = get_monitor();
     let relations = get_actor_relations(monitor, actor);
+    #[cfg(ractor_verif)]
+    crate::verif::point("pg.sdemon.rel", actor.pid(), i64::from(relations.is_some()));
 
     if let Occupied(mut entry) = monitor.world_listeners.entry(key.clone()) {
         let mut relations_guard = relations.as_ref().map(lock_relations);
@@ -746,6 +820,8 @@ pub fn demonitor_scope(scope: ScopeName, actor: ActorId) {
     } else if let Some(relations) = relations {
         lock_relations(&relations).world_monitors.remove(&key);
     }
+    #[cfg(ractor_verif)]
+    crate::verif::emit("pg.sdemon.region", actor.pid(), 0);
 }
 
 /// Remove the specified [ActorId] from monitoring all groups it might be in.
@@ -753,14 +829,24 @@ pub fn demonitor_scope(scope: ScopeName, actor: ActorId) {
 pub(crate) fn demonitor_all(actor: ActorId) {
     let monitor = get_monitor();
     let Some(relations) = get_actor_relations(monitor, actor) else {
+        #[cfg(ractor_verif)]
+        crate::verif::emit("pg.xdem.take", actor.pid(), -1);
         return;
     };
     let mut relations_guard = lock_relations(&relations);
     let group_monitors = std::mem::take(&mut relations_guard.group_monitors);
     let world_monitors = std::mem::take(&mut relations_guard.world_monitors);
     drop(relations_guard);
+    #[cfg(ractor_verif)]
+    crate::verif::point(
+        "pg.xdem.take",
+        actor.pid(),
+        (group_monitors.len() + world_monitors.len()) as i64,
+    );
 
     for key in group_monitors {
+        #[cfg(ractor_verif)]
+        let vkey = key.clone();
         if let Occupied(mut entry) = monitor.map.entry(key) {
             let group_state = entry.get_mut();
             group_state
@@ -770,9 +856,13 @@ pub(crate) fn demonitor_all(actor: ActorId) {
                 entry.remove();
             }
         }
+        #[cfg(ractor_verif)]
+        crate::verif::point_kv("pg.xdem.g", actor.pid(), 0, verif_key(&vkey));
     }
 
     for key in world_monitors {
+        #[cfg(ractor_verif)]
+        let vkey = key.clone();
         if let Occupied(mut entry) = monitor.world_listeners.entry(key) {
             entry
                 .get_mut()
@@ -781,5 +871,118 @@ pub(crate) fn demonitor_all(actor: ActorId) {
                 entry.remove();
             }
         }
+        #[cfg(ractor_verif)]
+        crate::verif::point_kv("pg.xdem.w", actor.pid(), 0, verif_key(&vkey));
     }
+}
+
+// ------------------------------------------------------------------------------------------------
+// Verification support (cfg(ractor_verif) only)
+// ------------------------------------------------------------------------------------------------
+
+/// scope/group of a key as extra event fields
+#[cfg(ractor_verif)]
+fn verif_key(key: &ScopeGroupKey) -> Vec<(String, crate::verif::Val)> {
+    vec![
+        ("sc".to_string(), crate::verif::Val::S(key.scope.clone())),
+        ("gr".to_string(), crate::verif::Val::S(key.group.clone())),
+    ]
+}
+
+/// The four indexes of the process-group state, restricted to one run of a harness
+#[cfg(ractor_verif)]
+#[derive(Debug, Default, Clone)]
+#[allow(missing_docs)]
+pub struct VerifSnapshot {
+    /// forward map: (scope, group, members, listeners)
+    pub map: Vec<(ScopeName, GroupName, Vec<ActorId>, Vec<ActorId>)>,
+    /// scope index: (scope, groups)
+    pub index: Vec<(ScopeName, Vec<GroupName>)>,
+    /// world listeners: (scope, group sentinel, listeners)
+    pub world: Vec<(ScopeName, GroupName, Vec<ActorId>)>,
+    /// reverse relations: (actor, memberships, group monitors, world monitors)
+    pub relations: Vec<(
+        ActorId,
+        Vec<(ScopeName, GroupName)>,
+        Vec<(ScopeName, GroupName)>,
+        Vec<(ScopeName, GroupName)>,
+    )>,
+    /// total number of reverse-relation entries in the process
+    pub relations_total: usize,
+}
+
+/// Snapshot of the four indexes. Forward-map and index entries are kept when their scope or group
+/// name starts with `prefix`; world-listener entries when their scope starts with `prefix` or is
+/// one of the two built-in scopes; reverse relations for the listed actors. Every lock is taken
+/// and released on its own: call this only while no other thread is inside a pg operation.
+#[cfg(ractor_verif)]
+pub fn verif_snapshot(prefix: &str, actors: &[ActorId]) -> VerifSnapshot {
+    let monitor = get_monitor();
+    let mut snap = VerifSnapshot::default();
+    let keep = |scope: &str, group: &str| scope.starts_with(prefix) || group.starts_with(prefix);
+    for kvp in monitor.map.iter() {
+        if keep(&kvp.key().scope, &kvp.key().group) {
+            let mut members = kvp.value().members.keys().copied().collect::<Vec<_>>();
+            members.sort();
+            let listeners = kvp
+                .value()
+                .listeners
+                .iter()
+                .map(|cell| cell.get_id())
+                .collect::<Vec<_>>();
+            snap.map.push((
+                kvp.key().scope.clone(),
+                kvp.key().group.clone(),
+                members,
+                listeners,
+            ));
+        }
+    }
+    snap.map.sort();
+    for kvp in monitor.index.iter() {
+        let mut groups = kvp
+            .value()
+            .iter()
+            .filter(|group| keep(kvp.key(), group))
+            .cloned()
+            .collect::<Vec<_>>();
+        groups.sort();
+        if kvp.key().starts_with(prefix) || !groups.is_empty() {
+            snap.index.push((kvp.key().clone(), groups));
+        }
+    }
+    snap.index.sort();
+    for kvp in monitor.world_listeners.iter() {
+        let scope = &kvp.key().scope;
+        if scope.starts_with(prefix) || scope == DEFAULT_SCOPE || scope == ALL_SCOPES_NOTIFICATION
+        {
+            snap.world.push((
+                scope.clone(),
+                kvp.key().group.clone(),
+                kvp.value().iter().map(|cell| cell.get_id()).collect(),
+            ));
+        }
+    }
+    snap.world.sort();
+    let keys = |set: &HashSet<ScopeGroupKey>| {
+        let mut keys = set
+            .iter()
+            .map(|key| (key.scope.clone(), key.group.clone()))
+            .collect::<Vec<_>>();
+        keys.sort();
+        keys
+    };
+    for actor in actors {
+        if let Some(relations) = get_actor_relations(monitor, *actor) {
+            let guard = lock_relations(&relations);
+            snap.relations.push((
+                *actor,
+                keys(&guard.memberships),
+                keys(&guard.group_monitors),
+                keys(&guard.world_monitors),
+            ));
+        }
+    }
+    snap.relations_total = monitor.actor_relations.len();
+    snap
 }
